@@ -12,9 +12,18 @@ clauses reported here are:
 With T-SHIELD and T-FUT these give the statement; the schedule quantifier is carried by S4 and
 T-SHIELD, i.e. assumed - the proof is of the call shapes on every path of the real code.
 """
-from .C12 import AsyncCall, AsyncMethod, c13_variant
+from .C12 import AsyncCall, AsyncMethod, KeyAdequacy, c13_variant
 
-CONTRACTS = [c13_variant(AsyncCall), c13_variant(AsyncMethod)]
+
+def _ka13(base, nm):
+    """"callers ... with the same key share a single invocation": which calls *have* the same key is part of the statement -
+    equal, type-identical arguments and, for methods, the same receiver instance (the key-adequacy lemmas of C12)."""
+    return type(nm, (KeyAdequacy,), dict(file=base.file, func=base.func, cls=base.cls, meth=base.meth, is_async=True,
+                                         is_method=base.is_method, props=("C13",),
+                                         name=base.name.replace("C12/", "C13/") + "(key-adequacy)"))()
+
+
+CONTRACTS = [c13_variant(AsyncCall), c13_variant(AsyncMethod), _ka13(AsyncCall, "KA13Async"), _ka13(AsyncMethod, "KA13AsyncMethod")]
 
 
 def extra_contracts():
